@@ -149,7 +149,7 @@ class SimHost:
         self.home_cwd = os.getcwd()
         self._root_b = self.root.encode()
         self.logdir = tempfile.mkdtemp(prefix="simhost-log-", dir=parent)  # the tool's own log: outside the digest
-        self.log_line({"seed": seed, "swarm": {k: swarm[k] for k in sorted(swarm)}})
+        self.log_line({"seed": seed, "swarm": {k: swarm[k] for k in sorted(swarm) if k != "keep_trace"}})
 
     # -- trace ---------------------------------------------------------------------
     def log_line(self, obj):
@@ -259,6 +259,7 @@ class SimHost:
                             sys.argv = ["suit-generator"] + list(argv)
                         out.value = fn()
                     except BaseException as exc:  # noqa: B036 - classification is the point
+                        d.active = False  # the harness's own bookkeeping below must not go through the seam
                         out.cls = classify(exc)
                         out.exc_type = type(exc).__name__
                         out.exc_msg = str(exc)[:300]
